@@ -84,6 +84,11 @@ pub fn op_count() -> usize {
 	SESSION.lock().unwrap().as_ref().map(|s| s.ops.len()).unwrap_or(0)
 }
 
+/// Copy of the ops logged since position `from`.
+pub fn ops_since(from: usize) -> Vec<Op> {
+	SESSION.lock().unwrap().as_ref().map(|s| s.ops[from.min(s.ops.len())..].to_vec()).unwrap_or_default()
+}
+
 pub fn marker(text: String) -> usize {
 	let mut g = SESSION.lock().unwrap();
 	if let Some(s) = g.as_mut() {
@@ -252,7 +257,9 @@ fn check_fault(s: &mut Session, kind: FaultKind, class: &str) -> Option<FaultAct
 	}
 	if let Some(a) = hit {
 		let idx = s.ops.len();
-		s.fired.push((idx, kind, class.to_string(), a));
+		if s.fired.len() < 4096 {
+			s.fired.push((idx, kind, class.to_string(), a));
+		}
 	}
 	hit
 }
